@@ -32,8 +32,14 @@ from scenic.core.vectors import Vector
 
 
 class HSimulator(Simulator):
-    def __init__(self, perturb=None, faults=None, observer=None):
+    def __init__(self, perturb=None, faults=None, observer=None, create_assign=None,
+                 none_value=None):
         super().__init__()
+        # {property: increment}: like real interfaces, the simulator may write (non-dynamic)
+        # properties of an object while creating it -- before it can fail
+        self.create_assign = create_assign or {}
+        # what the simulator reports for dynamic properties whose Scenic default is None
+        self.none_value = none_value
         self.perturb = perturb
         self.faults = faults
         self.observer = observer  # called with the simulation at the start of every step()
@@ -76,10 +82,15 @@ class HSimulation(Simulation):
 
     # -- Simulation interface --------------------------------------------------------------
     def createObjectInSimulator(self, obj):
+        for prop, inc in self.owner.create_assign.items():
+            if hasattr(obj, prop):
+                setattr(obj, prop, getattr(obj, prop) + inc)
         self.owner.hit("create")
         st = {}
         for prop in obj._simulatorProvidedProperties:
             st[prop] = getattr(obj, prop)
+            if st[prop] is None and self.owner.none_value is not None:
+                st[prop] = self.owner.none_value
         self.state.append(st)
         self.updates.append(0)
         self.owner.log.append(("create", len(self.state) - 1, type(obj).__name__))
